@@ -350,6 +350,7 @@ CORPUS_D = dict(CORPUS)
 ADDRESS = re.compile(r"0x[0-9a-fA-F]+")
 LAMBDAS = ["$", "true", "$ > 1", "1", "$1"]
 LAMBDAS_PLAIN = ["$", "true", "1"]
+CONST_LAMBDAS = ("true", "1")
 
 _sweep_engine = None
 
@@ -581,7 +582,13 @@ def forms(d, assignment, extras, explicit=()):
         if fd.is_method and k >= 1 and given_first and fd.name != "#operator_.":
             out.append(("method k=%d" % k, lambda k=k, thunk=thunk: thunk(k, "method")))
         # call(name, args, kwargs): plain values only, no empty slots
-        if fd.is_function and not d.has_lazy and fd.name not in ("call", "dict", "#list", "#map", "#get_context_data", "#operator_=>") \
+        # lazy Lambda parameters take part when their argument is a constant (call() hands over its value)
+        lazy_ok = all(d.kinds[p.name] == "value" or
+                      (d.kinds[p.name] == "lambda" and not p.value_type.method     # Lambda(method=True) wants a receiver-using expression
+                       and (assignment.get(p.name) or ["L", "1"])[1] in CONST_LAMBDAS)
+                      for p in d.bound) and (d.star is None or d.kinds[d.star.name] == "value" or
+                                             all(e[0] == "L" and e[1] in CONST_LAMBDAS for e in extras))
+        if fd.is_function and lazy_ok and fd.name not in ("call", "dict", "#list", "#map", "#get_context_data", "#operator_=>") \
                 and all((assignment.get(p.name) is not None or p.name in explicit) for p in d.vis[:k]) \
                 and not (nokw and uses_kw):
             def cthunk(k=k):
